@@ -99,13 +99,13 @@ Ltac toks_sv Hs :=
   unfold word_tok at 1 2 3, kw; cbn [map fst piece_tok List.concat]; rewrite !app_nil_r; reflexivity.
 
 Theorem raw_roundtrip_sv c name t spf :
-  ctx_ok c -> name_ok c name -> type_ok c t -> isv_ok c 1 (2 ^ 32) spf ->
+  ctx_ok c -> name_ok c name -> top_name c name -> type_ok c t -> isv_ok c 1 (2 ^ 32) spf ->
   parse_line (rctx_of c) (print_entry c (ERaw name t spf)) = Some (ERaw name t spf).
 Proof.
-  intros Hc [Hn Hv] Ht Hs.
+  intros Hc [Hn Hv] Htop Ht Hs. unfold top_name in Htop.
   destruct (int_word_unsigned c 32 spf 1 Hc ltac:(lia) ltac:(lia) Hs) as [Hw Hr].
   rewrite (parse_print c _ [name; B"RAW"; type_name t; word_tok (int_word c spf)]); [| assumption | | ].
-  - unfold parse_spec. rewrite Hv. cbn [negb]. kw_decide. rewrite Ht, Hr.
+  - unfold parse_spec. rewrite Hv. cbn [negb]. kw_decide. rewrite Htop, Ht, Hr.
     destruct spf as [v|n i]; cbn [lit_lt isv_ok] in *; [|reflexivity].
     replace (v <=? 0) with false by (symmetry; apply Z.leb_gt; lia). reflexivity.
   - unfold entry_items; cbn [entry_name].
